@@ -479,6 +479,96 @@ def rule_r4(chk, F):
             r.violation("Shape:abi-has-more-fields", "ShapeLayout has fields the runtime Shape lacks", sh_rt["file"])
 
 
+def call_slice(B, op, seen=None):
+    """names of the calls whose results flow (through copies/arithmetic/calls) into an operand"""
+    out = set()
+    seen = seen if seen is not None else set()
+    if op[0] == "k":
+        return out
+    local = op[1][0]
+    if local in seen:
+        return out
+    seen.add(local)
+    for blk in B.blocks:
+        for st in blk["s"]:
+            if st[0] == "a" and st[1][0] == local:
+                rv = st[2]
+                ops = []
+                if rv[0] in ("use", "repeat"):
+                    ops = [rv[1]]
+                elif rv[0] == "cast":
+                    ops = [rv[2]]
+                elif rv[0] == "bin":
+                    ops = [rv[2], rv[3]]
+                elif rv[0] == "un":
+                    ops = [rv[2]]
+                elif rv[0] == "agg":
+                    ops = rv[2]
+                elif rv[0] == "ref":
+                    ops = [["c", rv[2]]]
+                elif rv[0] in ("discr", "rawptr"):
+                    ops = [["c", rv[1]]]
+                for o in ops:
+                    out |= call_slice(B, o, seen)
+        t = blk["t"]
+        if t[0] == "call" and t[1]["d"][0] == local:
+            nm = cfg.callee_name(cfg.callee_of(t[1]["f"])) or "?"
+            out.add(nm)
+            for a in t[1]["a"]:
+                out |= call_slice(B, a, seen)
+    return out
+
+
+def rule_r6(chk, F, c, cg):
+    r = chk.rule("C03.R6", "minor collection: whether a promoted object is entered into the remembered set is decided "
+                           "on the child's address AFTER evacuation (promotion of the child can fail and leave it "
+                           "young), and the slot is relocated to that same address")
+    tp = [p for p in cg.bodies if p.startswith(RT + "gc::swiper::minor::CopyTask::<'a>::trace_promoted_object")]
+    if not r.anchor("CopyTask::trace_promoted_object", tp):
+        return
+    ev = RT + "gc::swiper::minor::CopyTask::<'a>::evacuate_object"
+    found_flag = found_reloc = False
+    for p in sorted(tp):
+        B = cg.body(p)
+        # stores of `true` through a captured flag / into a local bool that later guards set_remembered
+        for bi, blk in enumerate(B.blocks):
+            if blk["c"] or bi not in B.reachable(0):
+                continue
+            for s in blk["s"]:
+                if s[0] == "a" and s[2][0] == "use" and s[2][1][0] == "k" and s[2][1][1].get("ty") == "bool" \
+                        and s[2][1][1].get("v") == 1 and (s[1][1] or B.local_ty(s[1][0]) == "bool") and s[1][0] != 0:
+                    # controlling conditions
+                    deps = set()
+                    for sb in range(B.n):
+                        t = B.blocks[sb]["t"]
+                        if t[0] != "switch" or sb == bi or not B.dominates(sb, bi):
+                            continue
+                        succs = B.succ[sb]
+                        reach = [bi == x or bi in B.reachable(x, avoid={sb}) for x in succs]
+                        if any(reach) and not all(reach):
+                            deps |= call_slice(B, t[1])
+                    if not any(last(d) == "is_young" for d in deps):
+                        continue
+                    found_flag = True
+                    r.instance("%s:remembered-flag" % p, sample={"fn": p, "depends_on": sorted(last(d) for d in deps)})
+                    if ev not in deps:
+                        r.violation(RT + "gc::swiper::minor::CopyTask::trace_promoted_object:remembered-decision-on-pre-copy-address",
+                                    "the old→young bookkeeping is decided without looking at the address returned by "
+                                    "evacuate_object: when promoting the child fails (old generation full) it stays "
+                                    "young, the promoted parent is not remembered, and the next minor collection "
+                                    "drops the child", "%s (bb%d)" % (B.file, bi))
+        for x in B.calls:
+            if x.name and last(x.name) == "relocate" and len(x.args) > 1:
+                found_reloc = True
+                sl = call_slice(B, x.args[1])
+                r.instance("%s:relocate" % p, sample={"fn": p, "address_from": sorted(last(d) for d in sl)})
+                if ev not in sl:
+                    r.violation("%s:slot-relocated-to-pre-copy-address" % p,
+                                "a slot is relocated to an address that does not come from evacuate_object", x.where())
+    r.anchor("trace_promoted_object: remembered-set flag", found_flag)
+    r.anchor("trace_promoted_object: slot.relocate", found_reloc)
+
+
 def run(chk, F):
     c = F.crate("dora_runtime")
     cg = CallGraph(F)
@@ -486,6 +576,7 @@ def run(chk, F):
     rule_r2(chk, F, c, cg)
     rule_r3(chk, F, cg)
     rule_r4(chk, F)
+    rule_r6(chk, F, c, cg)
     # clause (d): address-keyed tables re-hash before use after a collection — same engine as C09.R4
     from rules import c09
     c09.rule_r4(chk, c, cg, rid="C03.R5")
